@@ -5,8 +5,9 @@ import sys
 import time
 
 HOME = os.environ.get('VERIF_HOME', os.path.dirname(os.path.dirname(os.path.abspath(__file__))))
-EVIDENCE_DIR = os.path.join(HOME, 'evidence')
-REPLAY_DIR = os.path.join(HOME, 'replays')
+# (the seeded-change runner redirects both so that runs on mutated sources never overwrite committed evidence)
+EVIDENCE_DIR = os.environ.get('VERIF_EVIDENCE_DIR') or os.path.join(HOME, 'evidence')
+REPLAY_DIR = os.environ.get('VERIF_REPLAY_DIR') or os.path.join(HOME, 'replays')
 KNOWN = os.path.join(HOME, 'known_findings.json')
 
 
